@@ -69,7 +69,8 @@ def gen_points(rng, n):
                   2 ** 62 - 1, 2 ** 62}
         if q > 0:
             for k in (1, 2, 3, 1023, 1024, 1025, rng.randrange(1, 1 << 20), rng.randrange(1, 1 << 40),
-                      (2 ** 62) // q):
+                      2 ** 15, 2 ** 16, 2 ** 31 - 1, 2 ** 31, 2 ** 32, 2 ** 32 + 1, (2 ** 31) // q + 1, (2 ** 32) // q + 1,
+                      (2 ** 53) // q, (2 ** 62) // q):
                 for d in (-1, 0, 1):
                     c = k * q + d
                     if 0 <= c <= 2 ** 62:
